@@ -123,6 +123,13 @@ type c08Result struct {
 	Dead         []string       `json:"dead,omitempty"`
 	Skipped      string         `json:"skipped,omitempty"`
 	WallS        float64        `json:"wall_s"`
+	// crash enumeration (spaces with Crash): executions in which Bob's database refused a
+	// write, cb:k branches that found no further write (dead ends), crashes at the largest
+	// enumerated k, measured maximum of Bob's write transactions per event kind
+	Crashes        int              `json:"crashes,omitempty"`
+	NoopCrashes    int              `json:"noop_crashes,omitempty"`
+	CrashSaturated int              `json:"crash_saturated,omitempty"`
+	MaxWrites      map[string]int64 `json:"max_writes,omitempty"`
 	// replay
 	Traces  []string    `json:"traces,omitempty"` // one observation-trace hash per repetition
 	Obs     []string    `json:"obs,omitempty"`    // observation trace of the first repetition
@@ -192,7 +199,22 @@ func (a *c08Adapter) collect(terminal bool) {
 	a.mu.Lock()
 	defer a.mu.Unlock()
 	w := a.c08World
-	if terminal && w.dead == "" {
+	if terminal {
+		a.res.Crashes += w.crashes
+		a.res.CrashSaturated += w.crashSaturated
+		if w.noop {
+			a.res.NoopCrashes++
+		}
+		for k, n := range w.maxWrites {
+			if a.res.MaxWrites == nil {
+				a.res.MaxWrites = map[string]int64{}
+			}
+			if n > a.res.MaxWrites[k] {
+				a.res.MaxWrites[k] = n
+			}
+		}
+	}
+	if terminal && w.dead == "" && !w.noop {
 		a.res.Outcomes[w.outcome()]++
 		if a.res.Sample == nil && len(w.hist) > 10 {
 			a.res.Sample = append([]string{}, w.hist...)
@@ -562,7 +584,14 @@ func c08Spaces(thorough bool) []c08Scn {
 		for _, p := range pays {
 			d = append(d, p.Dir)
 			k = append(k, p.Kind)
-			a = append(a, strconv.FormatInt(p.Amt/sat, 10))
+			as := strconv.FormatInt(p.Amt/sat, 10)
+			if r := p.Amt % sat; r != 0 {
+				as += fmt.Sprintf(".%03d", r) // a sub-satoshi amount
+			}
+			if p.HashOf > 0 {
+				as += fmt.Sprintf("=h%d", p.HashOf-1)
+			}
+			a = append(a, as)
 			at = append(at, strconv.Itoa(p.At))
 		}
 		return fmt.Sprintf("%dp/%s/%s/%s/at%s", len(pays), strings.Join(d, "+"), strings.Join(k, "+"), strings.Join(a, "+"), at[len(at)-1])
@@ -571,7 +600,7 @@ func c08Spaces(thorough bool) []c08Scn {
 	// ---- product spaces (two payments, slow wire x fault) --------------------------
 	type pair struct{ k0, k1 string }
 	two := func(d0, d1 string, pr pair, a1 int64, at int) []c08Pay {
-		return []c08Pay{{d0, nonDust, pr.k0, 0}, {d1, a1, pr.k1, at}}
+		return []c08Pay{{d0, nonDust, pr.k0, 0, 0}, {d1, a1, pr.k1, at, 0}}
 	}
 	if !thorough {
 		ps := two("AC", "AC", pair{"valid", "valid"}, nonDust, 6)
@@ -599,7 +628,7 @@ func c08Spaces(thorough bool) []c08Scn {
 	for _, dir := range []string{"AC", "CA"} {
 		for _, k := range kinds {
 			for _, a := range []int64{dustLo, dustMid, nonDust, large} {
-				p := c08Pay{dir, a, k, 0}
+				p := c08Pay{dir, a, k, 0, 0}
 				twoAmts := a == dustLo || a == nonDust
 				switch {
 				case thorough && twoAmts && k != "wrongamt":
@@ -616,7 +645,7 @@ func c08Spaces(thorough bool) []c08Scn {
 			}
 		}
 		for _, a := range []int64{belowMin, polMin} {
-			p := c08Pay{dir, a, "valid", 0}
+			p := c08Pay{dir, a, "valid", 0, 0}
 			if thorough {
 				deep(pname(p), p)
 			} else {
@@ -659,7 +688,7 @@ func c08Spaces(thorough bool) []c08Scn {
 			if !thorough && (bc != 25_000 || k != "valid") {
 				continue
 			}
-			p := c08Pay{"AC", nonDust, k, 0}
+			p := c08Pay{"AC", nonDust, k, 0, 0}
 			if bc > 25_000 {
 				p.Amt = 2_000_000 * sat
 			}
@@ -682,7 +711,7 @@ func c08Spaces(thorough bool) []c08Scn {
 		firsts = []string{"unknown", "holdcancel", "valid"}
 	}
 	for _, k0 := range firsts {
-		ps := []c08Pay{{"AC", 25000 * sat, k0, 0}, {"AC", 25000 * sat, "valid", 0}}
+		ps := []c08Pay{{"AC", 25000 * sat, k0, 0, 0}, {"AC", 25000 * sat, "valid", 0, 0}}
 		sc := c08Scn{Name: "linkreject/" + pname(ps...) + "/bobBC=60000", Pays: ps, Dev: 1, Faults: 1, Total: 1, Freeze: true, BobBCSat: 60_000}
 		if thorough && k0 == "unknown" {
 			sc.Dev, sc.Faults, sc.Total = 2, 2, 2
@@ -698,7 +727,7 @@ func c08Spaces(thorough bool) []c08Scn {
 		expKinds = []string{"valid", "holdsettle", "unknown"}
 	}
 	for _, k := range expKinds {
-		p := c08Pay{"AC", nonDust, k, 0}
+		p := c08Pay{"AC", nonDust, k, 0, 0}
 		sc := c08Scn{Name: "expiry/" + pname(p) + "/cutBC+cutAB", Pays: []c08Pay{p}, Dev: 0, Faults: 2, Total: 2,
 			MailboxExpiryMs: 60, SlowReest: "C>B", FaultSeq: []string{"cut:BC", "cut:AB"}}
 		if thorough {
@@ -707,24 +736,135 @@ func c08Spaces(thorough bool) []c08Scn {
 		out = append(out, sc)
 	}
 	if thorough {
-		ps := []c08Pay{{"AC", nonDust, "valid", 0}, {"AC", nonDust, "valid", 6}}
+		ps := []c08Pay{{"AC", nonDust, "valid", 0, 0}, {"AC", nonDust, "valid", 6, 0}}
 		out = append(out, c08Scn{Name: "expiry/" + pname(ps...) + "/cutBC+cutAB", Pays: ps, Dev: 0, Faults: 2, Total: 2,
 			MailboxExpiryMs: 60, SlowReest: "C>B", FaultSeq: []string{"cut:BC", "cut:AB"}})
 	}
+	out = append(out, c08AuditSpaces(thorough, pname)...)
 	return append(deeps, out...)
+}
+
+// c08AuditSpaces: the dimensions added by the axis audit (configuration options, one
+// database / crash points, message variants, multiplicities, mid-run timer windows), each
+// crossed with the faults at every position. Amounts carry a sub-satoshi part.
+func c08AuditSpaces(thorough bool, pname func(...c08Pay) string) []c08Scn {
+	const (
+		sat     = 1000
+		nonDust = 20000*sat + 321 // an output on every commitment, 321 msat below the next satoshi
+		dustLo  = 3000*sat + 7    // dust on every commitment
+	)
+	var out []c08Scn
+	base := func(fam string, sc c08Scn, suffix string) {
+		sc.Name = fam + "/" + pname(sc.Pays...) + suffix
+		if sc.Dev == 0 && sc.Faults == 0 {
+			sc.Dev, sc.Faults, sc.Total, sc.Freeze = 1, 1, 1, true
+			if thorough && len(sc.Pays) == 1 {
+				sc.Dev, sc.Faults, sc.Total = 2, 2, 2
+			}
+		}
+		out = append(out, sc)
+	}
+	one := func(dir, kind string, amt int64) []c08Pay { return []c08Pay{{Dir: dir, Amt: amt, Kind: kind}} }
+
+	// (1) Bob's two channels in ONE database (cross-channel forwarding-package acks are
+	// live, the switch sees both channels on restart) x graceful faults everywhere.
+	base("onedb", c08Scn{Pays: one("AC", "valid", nonDust), OneDB: true}, "")
+	base("onedb", c08Scn{Pays: one("CA", "valid", nonDust), OneDB: true}, "")
+	base("onedb", c08Scn{Pays: one("AC", "holdsettle", nonDust), OneDB: true}, "")
+	base("onedb", c08Scn{Pays: one("CA", "unknown", nonDust), OneDB: true}, "")
+	base("onedb", c08Scn{Pays: []c08Pay{{Dir: "AC", Amt: nonDust, Kind: "valid"}, {Dir: "CA", Amt: nonDust, Kind: "valid", At: 6}}, OneDB: true}, "")
+	if thorough {
+		base("onedb", c08Scn{Pays: one("AC", "holdcancel", nonDust), OneDB: true}, "")
+		base("onedb", c08Scn{Pays: one("CA", "holdsettle", dustLo), OneDB: true}, "")
+		base("onedb", c08Scn{Pays: []c08Pay{{Dir: "AC", Amt: nonDust, Kind: "valid"}, {Dir: "AC", Amt: nonDust, Kind: "valid", At: 6}}, OneDB: true}, "")
+		base("onedb", c08Scn{Pays: []c08Pay{{Dir: "AC", Amt: nonDust, Kind: "holdsettle"}, {Dir: "AC", Amt: dustLo, Kind: "unknown", At: 6}}, OneDB: true}, "")
+	}
+
+	// (2) crash points: Bob dies after the k-th durable write of the event being handled,
+	// for every event of the default schedule and every k.
+	crash := func(pays []c08Pay, dev int) {
+		sc := c08Scn{Pays: pays, Dev: dev, Faults: 1, Total: dev + 1, OneDB: true, Crash: true, FaultKinds: []string{"cb"}}
+		sc.Name = "crash/" + pname(pays...)
+		if dev > 0 {
+			sc.Name += fmt.Sprintf("/dev%d", dev)
+		}
+		out = append(out, sc)
+	}
+	crash(one("AC", "valid", nonDust), 0)
+	crash(one("CA", "valid", nonDust), 0)
+	crash(one("AC", "holdsettle", nonDust), 0)
+	crash(one("AC", "unknown", nonDust), 0)
+	crash(one("CA", "malformed", dustLo), 0)
+	if thorough {
+		crash(one("AC", "valid", nonDust), 1)
+		crash(one("CA", "holdcancel", nonDust), 1)
+		crash([]c08Pay{{Dir: "AC", Amt: nonDust, Kind: "valid"}, {Dir: "AC", Amt: nonDust, Kind: "valid", At: 6}}, 0)
+		crash([]c08Pay{{Dir: "AC", Amt: nonDust, Kind: "valid"}, {Dir: "CA", Amt: nonDust, Kind: "valid"}}, 0)
+		crash([]c08Pay{{Dir: "AC", Amt: nonDust, Kind: "holdsettle"}, {Dir: "AC", Amt: nonDust, Kind: "unknown", At: 6}}, 0)
+	}
+
+	// (3) message variant update_fail_malformed_htlc: the receiver ("malformed") or
+	// already Bob ("badonion") cannot parse the onion. The [badonion, valid] batch also
+	// makes the ids of the incoming (#1) and outgoing (#0) HTLC of a forwarded payment differ.
+	base("onion", c08Scn{Pays: one("AC", "malformed", nonDust), OneDB: true}, "")
+	base("onion", c08Scn{Pays: one("CA", "malformed", nonDust)}, "")
+	base("onion", c08Scn{Pays: one("AC", "badonion", nonDust), OneDB: true}, "")
+	base("onion", c08Scn{Pays: []c08Pay{{Dir: "AC", Amt: dustLo, Kind: "badonion"}, {Dir: "AC", Amt: nonDust, Kind: "valid"}}, OneDB: true}, "")
+	if thorough {
+		base("onion", c08Scn{Pays: one("CA", "badonion", dustLo)}, "")
+		base("onion", c08Scn{Pays: []c08Pay{{Dir: "AC", Amt: nonDust, Kind: "malformed"}, {Dir: "AC", Amt: nonDust, Kind: "valid", At: 6}}, OneDB: true}, "")
+		base("onion", c08Scn{Pays: []c08Pay{{Dir: "CA", Amt: nonDust, Kind: "badonion"}, {Dir: "CA", Amt: nonDust, Kind: "holdsettle"}}, OneDB: true}, "")
+	}
+
+	// (4) two HTLCs with EQUAL payment hash and expiry but different amounts through the
+	// forwarder; the smaller one underpays the (single) invoice and is failed by the
+	// receiver, the other one is settled: both orders of everything by the deviations.
+	shard := func(a0, a1 int64, at int) []c08Pay {
+		return []c08Pay{{Dir: "AC", Amt: a0, Kind: "valid"}, {Dir: "AC", Amt: a1, Kind: "valid", At: at, HashOf: 1}}
+	}
+	base("shard", c08Scn{Pays: shard(nonDust+5000*sat, nonDust, 0), OneDB: true}, "")
+	if thorough {
+		base("shard", c08Scn{Pays: shard(nonDust, nonDust+5000*sat, 0), OneDB: true}, "")
+		base("shard", c08Scn{Pays: shard(nonDust+5000*sat, nonDust, 6)}, "")
+		base("shard", c08Scn{Pays: shard(nonDust, dustLo, 0), OneDB: true}, "")
+	}
+
+	// (5) configuration options of the forwarder that decide whether an HTLC is forwarded
+	base("cfg", c08Scn{Pays: one("AC", "valid", nonDust), RejectHTLC: true}, "/rejecthtlc")
+	base("cfg", c08Scn{Pays: []c08Pay{{Dir: "AC", Amt: dustLo, Kind: "holdsettle"}, {Dir: "AC", Amt: dustLo, Kind: "valid", At: 6}}, FeeExposureSat: 5000, OneDB: true}, "/exposure=5000")
+	if thorough {
+		base("cfg", c08Scn{Pays: one("CA", "holdsettle", nonDust), RejectHTLC: true, OneDB: true}, "/rejecthtlc")
+		base("cfg", c08Scn{Pays: one("CA", "valid", dustLo), FeeExposureSat: 2000}, "/exposure=2000")
+		base("cfg", c08Scn{Pays: []c08Pay{{Dir: "AC", Amt: nonDust, Kind: "holdsettle"}, {Dir: "AC", Amt: nonDust, Kind: "valid", At: 6}}, LinkFeeExposureSat: 8000, OneDB: true}, "/linkexposure=8000")
+	}
+
+	// (6) a long pause (past the switch's 10 s / 15 s tickers and the links' 15 s
+	// forwarding-package collector) in the MIDDLE of an execution, while an HTLC is held,
+	// followed / preceded by a fault at every position.
+	long := func(pays []c08Pay) {
+		out = append(out, c08Scn{Name: "long/" + pname(pays...), Pays: pays, Dev: 1, Faults: 1, Total: 2,
+			LongIdle: true, OnlyLong: true, OneDB: true})
+	}
+	long(one("AC", "holdsettle", nonDust))
+	if thorough {
+		long(one("CA", "holdsettle", nonDust))
+		long(one("AC", "holdcancel", dustLo))
+		long([]c08Pay{{Dir: "AC", Amt: nonDust, Kind: "valid"}, {Dir: "AC", Amt: nonDust, Kind: "valid", At: 40}})
+	}
+	return out
 }
 
 // gate scenarios: fixed event lists (default schedule with the listed deviations)
 func c08GateCases() []c08Job {
-	valid := c08Pay{"AC", 20_000_000, "valid", 0}
-	back := c08Pay{"CA", 3_000_000, "valid", 6}
-	hold := c08Pay{"AC", 20_000_000, "holdsettle", 0}
-	unk := c08Pay{"CA", 20_000_000, "unknown", 4}
+	valid := c08Pay{"AC", 20_000_000, "valid", 0, 0}
+	back := c08Pay{"CA", 3_000_000, "valid", 6, 0}
+	hold := c08Pay{"AC", 20_000_000, "holdsettle", 0, 0}
+	unk := c08Pay{"CA", 20_000_000, "unknown", 4, 0}
 	return []c08Job{
 		{Mode: "replay", Scn: c08Scn{Name: "gate/2p-default", Pays: []c08Pay{valid, back}, Faults: 2, Dev: 2}},
 		{Mode: "replay", Scn: c08Scn{Name: "gate/2p-cutBC+restartBob", Pays: []c08Pay{valid, back}, Faults: 2, Dev: 2},
 			Hist: strings.Fields("pay0 d:A>B T d:A>B d:B>A d:B>A pay1 d:A>B cut:BC d:B>C d:C>B d:C>B d:B>C T d:B>C d:C>B d:C>B d:B>C d:B>C d:C>B d:C>B rb")},
-		{Mode: "replay", Scn: c08Scn{Name: "gate/2p-slowAB+restartBob", Pays: []c08Pay{valid, {"AC", 20_000_000, "valid", 6}}, Faults: 2, Dev: 2, Freeze: true},
+		{Mode: "replay", Scn: c08Scn{Name: "gate/2p-slowAB+restartBob", Pays: []c08Pay{valid, {"AC", 20_000_000, "valid", 6, 0}}, Faults: 2, Dev: 2, Freeze: true},
 			Hist: strings.Fields("pay0 d:A>B T d:A>B d:B>A d:B>A pay1 d:A>B d:A>B d:B>C T d:A>B d:B>C d:B>A d:B>A d:C>B d:C>B d:A>B d:B>C d:B>C d:C>B d:C>B d:B>A d:B>A d:B>C d:B>C fz:A>B d:C>B d:C>B d:B>C d:C>B d:C>B d:B>A d:B>C d:B>C d:C>B T T un:A>B rb")},
 		{Mode: "replay", Scn: c08Scn{Name: "gate/hold+unknown-cutAB", Pays: []c08Pay{hold, unk}, Faults: 2, Dev: 2},
 			Hist: strings.Fields("pay0 d:A>B T d:A>B pay1 d:B>A T cut:AB")},
